@@ -175,6 +175,7 @@ func C11() *vk.Check {
 func runC11(c *vk.Ctx) {
 	c11PersisterReuse(c)
 	c11PersisterLoads(c)
+	c11SharedPersisterRefused(c)
 	ctx := context.Background()
 	sids, keys := c11SidsQuick, c11KeysQuick
 	if !c.Quick() {
@@ -517,5 +518,68 @@ func c11PersisterLoads(c *vk.Ctx) {
 				}
 			}
 		}()
+	}
+}
+
+// c11SharedPersisterRefused: a worker-wide flushing persister serves session A, then a request of A that the engine
+// refuses before it is initialized (input longer than 255 bytes: nothing is saved, so nothing is flushed), then
+// the first request of a session B that does not exist yet. B must start like any new session.
+func c11SharedPersisterRefused(c *vk.Ctx) {
+	n := c.N(60, 1500)
+	for i := 0; i < n; i++ {
+		if !c.Mine(i) {
+			continue
+		}
+		key := fmt.Sprintf("persister-refused/%d", i)
+		if !c.Want(key) {
+			continue
+		}
+		r := c.RNG(key)
+		p := app.DefaultProfile()
+		p.Sinks = false
+		a := app.Generate(r, p)
+		backend := []string{"mem", "fs", "pg"}[i%3]
+		cfgA := app.Config{FlagCount: a.FlagCount, SessionId: "alice", Root: a.Root}
+		cfgB := cfgA
+		cfgB.SessionId = "bob"
+		hist := a.History(r, r.Range(2, 8))
+		refused := strings.Repeat("9", r.Range(256, 400))
+		if r.Chance(1, 3) {
+			refused = "\n" // bad format: refused after initialization
+		}
+		c.Begin(key)
+		// reference: bob alone
+		b0, err := app.NewBackend(backend)
+		if err != nil {
+			continue
+		}
+		pr0 := app.NewPerRequest(a, cfgB, b0)
+		want := pr0.Request([]byte(""))
+		b0.Cleanup()
+		b, _ := app.NewBackend(backend)
+		sp := &app.SharedPersister{Mode: "flush"}
+		prA := app.NewPerRequest(a, cfgA, b)
+		prB := app.NewPerRequest(a, cfgB, b)
+		prA.Shared, prB.Shared = sp, sp
+		ok := true
+		for _, in := range hist {
+			o := prA.Request([]byte(in))
+			if !o.Cont || o.ExecErr != "" || o.FlushErr != "" || o.Panic != "" {
+				ok = false
+				break
+			}
+		}
+		if ok {
+			prA.Request([]byte(refused))
+			got := prB.Request([]byte(""))
+			c.EvalN(1, 1)
+			c.Count("new_session_after_refused_request_of_another", 1)
+			if got.Out != want.Out || got.Cont != want.Cont || (got.ExecErr == "") != (want.ExecErr == "") || !got.StoredState.Equal(want.StoredState) || !got.StoredCache.Equal(want.StoredCache) {
+				c.Violate(backend+":shared-persister:flush:new-session-starts-from-another-sessions-state", fmt.Sprintf("%s: flushing persister shared by all requests; alice: %v, then a refused input of %d bytes; bob's first request answers %s and stores %+v / %+v; alone: %s, %+v / %+v", backend, printableHist(hist), len(refused), got.Brief(), got.StoredState, got.StoredCache, want.Brief(), want.StoredState, want.StoredCache), key,
+					map[string]interface{}{"backend": backend, "app": a.Describe(), "history_alice": hist, "refused_len": len(refused)})
+			}
+		}
+		sp.Close()
+		b.Cleanup()
 	}
 }
